@@ -403,7 +403,7 @@ func registerAll() {
 
 func TestPropProjects(t *testing.T) {
 	registerAll()
-	ev.Rapid(t, "projects", ev.N(700, 8000), genCase, judged)
+	ev.Rapid(t, "projects", ev.N(2500, 8000), genCase, judged)
 }
 
 func TestPropRegressions(t *testing.T) {
